@@ -45,6 +45,26 @@ static const struct vh_method vh_methods[M_COUNT] = {
   [M_DES] = { "descrypt", "", 2, 0, A64, 11, 8, 1 },
 };
 
+/* canonical inexpensive settings (two forms per method), from crypt.5's formats */
+static const char *const vh_cheap[M_COUNT][2] = {
+  [M_YESCRYPT] = { "$y$j75$saltSALTsalt", "$y$j/.$ABCDEFGH$" },
+  [M_GOST] = { "$gy$j75$saltSALTsalt", "$gy$j/.$ABCDEFGH$" },
+  [M_SCRYPT] = { "$7$4/..../....saltSALTsalt", "$7$2/..../....ABCDEFGH$" },
+  [M_BCRYPT_B] = { "$2b$04$abcdefghijklmnopqrstuu", "$2b$04$ZYXWVUTSRQPONMLKJIHGFe" },
+  [M_BCRYPT_Y] = { "$2y$04$abcdefghijklmnopqrstuu", "$2y$04$ZYXWVUTSRQPONMLKJIHGFe" },
+  [M_BCRYPT_A] = { "$2a$04$abcdefghijklmnopqrstuu", "$2a$04$ZYXWVUTSRQPONMLKJIHGFe" },
+  [M_BCRYPT_X] = { "$2x$04$abcdefghijklmnopqrstuu", "$2x$04$ZYXWVUTSRQPONMLKJIHGFe" },
+  [M_SHA512] = { "$6$rounds=1000$saltSALTsaltSALT", "$6$ABCDEFGH$" },
+  [M_SHA256] = { "$5$rounds=1000$saltSALTsaltSALT", "$5$ABCDEFGH$" },
+  [M_SHA1] = { "$sha1$24$saltSALTsalt", "$sha1$1$ABCDEFGH$" },
+  [M_SUNMD5] = { "$md5$saltSALT", "$md5,rounds=1$ABCDEFGH$" },
+  [M_MD5] = { "$1$saltSALT", "$1$ABCDEFGH$" },
+  [M_NT] = { "$3$", "$3$$" },
+  [M_BSDI] = { "_/...salt", "_1...ABCD" },
+  [M_BIG] = { "ab............", "Zz/./././././." },
+  [M_DES] = { "ab", "Zz" },
+};
+
 /* position-distinct byte fill P (includes 8-bit values, never NUL) */
 static inline unsigned char vh_fillP (size_t i) { return (unsigned char) (1 + (73 * i + 41) % 250); }
 static inline void
